@@ -285,4 +285,56 @@ Section Items.
     mc_rest ax inner g ts space (get_ax (fst (fst (item_resolved (g_core g) inner))) ax) (get_ax (snd (fst (item_resolved (g_core g) inner))) ax)
             (replaced_caps (g_core g) ax).
   Proof. reflexivity. Qed.
+  Lemma rel_spans_auto ts ts' : tracks_rel k ts ts' -> existsb (fun t => is_auto (minf t)) ts' = existsb (fun t => is_auto (minf t)) ts.
+  Proof. apply rel_existsb. intros t t' Ht. track_open Ht. apply (rel_is_auto k). exact Hmin. Qed.
+  Lemma rel_spans_fr ts ts' : tracks_rel k ts ts' -> existsb (fun t => is_fr (maxf t)) ts' = existsb (fun t => is_fr (maxf t)) ts.
+  Proof. apply rel_existsb. intros t t' Ht. track_open Ht. apply (rel_is_fr k). exact Hmax. Qed.
+
+  Lemma rel_mc_rest ax inner inner' g g' ts ts' space space' fs fs' fm fm' caps caps' :
+    sz_rel O inner inner' -> gitem_rel k g g' -> tracks_rel k ts ts' -> sz_rel O space space' -> O fs fs' -> O fm fm' ->
+    (gs_replaced (g_style g) = true -> O (fst caps) (fst caps') /\ O (snd caps) (snd caps')) ->
+    ProgRel k VI (mc_rest ax inner g ts space fs fm caps) (mc_rest ax inner' g' ts' space' fs' fm' caps').
+  Proof.
+    intros Hin Hg Hts Hsp Hfs Hfm Hcaps. unfold mc_rest. gi_open Hg. ws_open Hgst. unfold g_core. rewrite Wov, Wrep.
+    rewrite (view_rel ax g g' Hg), (rel_spans_auto _ _ Hts), (rel_spans_fr _ _ Hts).
+    eapply pbind_rel with (RA := VI).
+    - assert (Ho : O (opt_or fs (opt_or fm (if is_scroll_container (point_get_ax (overflow (gs_core (g_style g))) ax) then Some zero else None)))
+                     (opt_or fs' (opt_or fm' (if is_scroll_container (point_get_ax (overflow (gs_core (g_style g))) ax) then Some zero else None)))).
+      { apply rel_opt_or; [exact Hfs|]. apply rel_opt_or; [exact Hfm|]. destruct (is_scroll_container _); [apply sc_zero|exact I]. }
+      revert Ho. generalize (opt_or fs (opt_or fm (if is_scroll_container (point_get_ax (overflow (gs_core (g_style g))) ax) then Some zero else None))).
+      generalize (opt_or fs' (opt_or fm' (if is_scroll_container (point_get_ax (overflow (gs_core (g_style g))) ax) then Some zero else None))).
+      intros o' o Ho. destruct o as [v|], o' as [v'|]; cbn [op_rel] in Ho; try contradiction.
+      + constructor. split; cbn [fst snd]; assumption.
+      + destruct (existsb (fun t => is_auto (minf t)) ts && (Nat.eqb (range_len (view ax g)) 1 || negb (existsb (fun t => is_fr (maxf t)) ts))).
+        * eapply pbind_rel; [apply rel_min_content_contribution_cached; eassumption|].
+          intros [mc g1] [mc' g1'] [Hmc Hg1]. cbn [fst snd] in Hmc, Hg1. constructor. split; cbn [fst snd]; [|exact Hg1].
+          destruct (gs_replaced (g_style g)); [|exact Hmc]. destruct (Hcaps eq_refl) as [Hc1 Hc2].
+          apply (rel_maybe_min_fo k Hk); [apply (rel_maybe_min_fo k Hk)|]; assumption.
+        * constructor. split; cbn [fst snd]; [apply sc_zero|exact Hg].
+    - intros [sz g1] [sz' g1'] [Hsz Hg1]. cbn [fst snd] in Hsz, Hg1. constructor. split; cbn [fst snd]; [|exact Hg1].
+      rewrite (view_rel ax g1 g1' Hg1). apply (rel_maybe_min_fo k Hk); [exact Hsz|].
+      apply rel_spanned_fixed_track_limit; [apply rel_get_ax; exact Hin|exact Hts].
+  Qed.
+
+  Lemma rel_minimum_contribution ax inner inner' g g' ts ts' space space' :
+    sz_rel O inner inner' -> gitem_rel k g g' -> tracks_rel k ts ts' -> sz_rel O space space' ->
+    ProgRel k VI (minimum_contribution ax inner g ts space) (minimum_contribution ax inner' g' ts' space').
+  Proof.
+    intros Hin Hg Hts Hsp. rewrite !minimum_contribution_unfold.
+    pose proof (rel_item_resolved g g' inner inner' Hg Hin) as (Hinh & Hmn & _).
+    apply rel_mc_rest; try assumption; try (apply rel_get_ax; assumption).
+    intros Hrep. gi_open Hg. ws_open Hgst. apply (Wcaps Hrep ax).
+  Qed.
+
+  Lemma rel_minimum_contribution_cached ax inner inner' g g' ts ts' space space' :
+    sz_rel O inner inner' -> gitem_rel k g g' -> tracks_rel k ts ts' -> sz_rel O space space' ->
+    ProgRel k VI (minimum_contribution_cached ax inner g ts space) (minimum_contribution_cached ax inner' g' ts' space').
+  Proof.
+    intros Hin Hg Hts Hsp. unfold minimum_contribution_cached. pose proof (rel_g_cache _ _ Hg) as Hc. ic_open Hc.
+    pose proof (rel_get_ax _ _ _ ax Hicminimum) as Hv.
+    destruct (get_ax (ic_minimum (g_cache g)) ax) as [v|], (get_ax (ic_minimum (g_cache g')) ax) as [v'|]; cbn [op_rel] in Hv; try contradiction.
+    - constructor. split; cbn [fst snd]; assumption.
+    - eapply pbind_rel; [apply rel_minimum_contribution; eassumption|]. intros [v g1] [v' g1'] [Hvv Hg1]. cbn [fst snd] in Hvv, Hg1. constructor.
+      split; cbn [fst snd]; [exact Hvv|apply rel_set_ic_minimum; [exact Hg1|exact Hvv]].
+  Qed.
 End Items.
